@@ -186,7 +186,11 @@ func (g *popGen) expr(t types.Type, depth int) string {
 		case u.Info()&types.IsString != 0:
 			return g.conv(t, fmt.Sprintf("\"s%d\"", g.n))
 		case u.Info()&types.IsBoolean != 0:
-			return g.conv(t, "true")
+			// neighbouring Boolean fields get different values (a copy that takes the wrong field shows)
+			if g.n%2 == 0 {
+				return g.conv(t, "true")
+			}
+			return g.conv(t, "false")
 		case u.Info()&types.IsInteger != 0:
 			return g.conv(t, fmt.Sprint(g.n%100+1))
 		case u.Info()&types.IsFloat != 0:
@@ -439,7 +443,7 @@ func (r *checkRun) copyReplay(f *ssa.Function) *replayTest {
 	recvT := f.Signature.Recv().Type()
 	var cases []string
 	// several populated receivers: interface fields rotate through their implementations
-	for k := 0; k < 6; k++ {
+	for k := 0; k < 8; k++ {
 		g.n = k * 7
 		cases = append(cases, g.expr(recvT, 3))
 	}
@@ -462,7 +466,7 @@ func (r *checkRun) copyReplay(f *ssa.Function) *replayTest {
 	b.WriteString("\t}\n\tfor i, orig := range origs {\n\t\tcp := orig.Copy()\n\t\tfor _, m := range verifCopyCheck(orig, cp) {\n\t\t\tt.Errorf(\"VERIF-REPLAY-FAIL case %d: %s\", i, m)\n\t\t}\n\t}\n}\n")
 	rel := strings.TrimPrefix(strings.TrimPrefix(pkg.Path(), modPath), "/")
 	return &replayTest{PkgDir: rel, TestName: "TestVerifReplay", Source: b.String(),
-		Input: "receiver values built from the type definition of " + g.tstr(recvT) + " with every pointer, slice, map and interface field populated (6 variants rotating the implementations of interface-typed fields)"}
+		Input: "receiver values built from the type definition of " + g.tstr(recvT) + " with every pointer, slice, map and interface field populated (8 variants rotating the implementations of interface-typed fields)"}
 }
 
 // runReplay executes the test against the repository through a build overlay.
